@@ -10,7 +10,7 @@ from hypothesis.stateful import RuleBasedStateMachine, precondition, rule, run_s
 from hgv import tsmodel as tm
 from hgv.runner import Result, Viol
 from hgv.trace import Trace
-from hgv.worker import HarnessError
+from hgv.worker import HarnessError, Rejected
 
 ID = "C05"
 ASAN_THOROUGH = True   # thorough tier runs against the AddressSanitizer build
@@ -301,7 +301,7 @@ def check(case, ctx) -> Result:
         res.violations.append(Viol("engine_crash", f"worker died: {resp.get('signal')} {resp.get('stderr', '')[-500:]}"))
         return res
     if not resp.get("built"):
-        raise HarnessError(f"C05 generator produced a program the tree rejects: {resp.get('error')}")
+        raise Rejected(f"C05 generator produced a program the tree rejects: {resp.get('error')}")
     if resp.get("error"):
         res.violations.append(Viol("run_failed", f"run() threw on a valid history: {resp['error']}", {"what": str(resp["error"].get("what"))[:60]}))
         return res
